@@ -109,9 +109,66 @@ def _in_pool_submission(call: ast.Call) -> bool:
     return False
 
 
+def _restoring_context_managers(repo) -> Dict[str, ast.FunctionDef]:
+    """Functions decorated with contextmanager whose body is (docstring +) `try: yield finally: <statements>`: their finally block
+    runs when the with-block is left, exactly like the finally of an inline try."""
+    out: Dict[str, ast.FunctionDef] = {}
+    for f in repo.all_functions():
+        n = f.node
+        if not any((dotted_name(d) or '').split('.')[-1] == 'contextmanager' for d in n.decorator_list):
+            continue
+        body = [s_ for s_ in n.body if not (isinstance(s_, ast.Expr) and isinstance(s_.value, ast.Constant))]
+        if len(body) == 1 and isinstance(body[0], ast.Try) and body[0].finalbody and not body[0].handlers and \
+                len(body[0].body) == 1 and isinstance(body[0].body[0], ast.Expr) and isinstance(body[0].body[0].value, ast.Yield):
+            out[f.name] = n
+    return out
+
+
+def _desugar_with(repo, body: List[ast.stmt]) -> List[ast.stmt]:
+    """`with restorer(a, b): BODY` -> `try: BODY finally: <restorer's finally with parameters replaced by a, b>` (recursively)."""
+    from gxstat.inline import substitute
+    from gxstat.srcmodel import clone, set_parents
+    cms = _restoring_context_managers(repo)
+    if not cms:
+        return body
+    changed = False
+    out: List[ast.stmt] = []
+    for st in body:
+        if isinstance(st, ast.With) and len(st.items) == 1 and isinstance(st.items[0].context_expr, ast.Call) and \
+                isinstance(st.items[0].context_expr.func, ast.Name) and st.items[0].context_expr.func.id in cms:
+            call = st.items[0].context_expr
+            fn = cms[call.func.id]
+            params = [a.arg for a in fn.args.args]
+            env = {p_: a_ for p_, a_ in zip(params, call.args)}
+            env.update({k.arg: k.value for k in call.keywords if k.arg})
+            fin = []
+            for fs in fn.body[-1].finalbody:
+                c_ = clone(fs)
+                c_ = substitute(c_, env) if env else c_
+                for x in ast.walk(c_):
+                    if hasattr(x, 'lineno'):
+                        x.lineno = st.end_lineno or st.lineno
+                        x.end_lineno = st.end_lineno or st.lineno
+                fin.append(c_)
+            tr = ast.Try(body=_desugar_with(repo, [clone(b) for b in st.body]), handlers=[], orelse=[], finalbody=fin)
+            ast.copy_location(tr, st)
+            tr.end_lineno = st.end_lineno
+            ast.fix_missing_locations(tr)
+            set_parents(tr)
+            tr._parent = parent(st)          # keep the original statements' parent links untouched
+            out.append(tr)
+            changed = True
+        else:
+            out.append(st)
+    return out if changed else body
+
+
 def check_wrapper(ctx, owner: str, rel: str, body: List[ast.stmt], scope_node: ast.AST, f: Optional[FuncInfo],
                   cg, cwd_sum, argv_sum, module_edges=None) -> None:
     """P1 on one function body (or on a module body for __main__)."""
+    if f is not None and f.name in _restoring_context_managers(ctx.repo):
+        return                                  # a restoring context manager is the restore, not a wrapper that owes one
+    body = _desugar_with(ctx.repo, body)
     # mutating sites in this body
     def call_mutates(call: ast.Call, summ) -> bool:
         if f is not None:
